@@ -15,6 +15,8 @@ from .ty import (BOOL, INT, NONE, STR, TDict, TInt, TList, TNone, TOpt, TRec, TS
 from .values import NOCONC, ClassRef, EngineError, ExcVal, FuncRef, State, Val, py_to_val, seq_of
 
 Outcome = tuple[str, Any, State]
+import builtins as _b
+BUILTIN_NAMES = set(dir(_b))
 
 
 def explore(eng: Engine, fn: FnCtx, st: State, f: Callable[[Ev], Any], line: int = 0) -> Iterator[Outcome]:
@@ -250,6 +252,19 @@ def exec_stmt(eng: Engine, fn: FnCtx, s: ast.stmt, st: State) -> Iterator[Outcom
 				else:
 					raise EngineError(f'del on {obj.ty}')
 		yield from simple(do6)
+		return
+	if isinstance(s, ast.With):
+		# context managers are read as: evaluate the context expression (usually an assumed external), bind it, run the body; __exit__ is not modelled
+		def enter(ev: Ev) -> None:
+			for item in s.items:
+				v = ev.eval(item.context_expr)
+				if item.optional_vars is not None:
+					assign_target(ev, item.optional_vars, v)
+		for kind, res, st2 in explore(eng, fn, st, enter, ln):
+			if kind == 'raise':
+				yield ('raise', res, st2)
+			else:
+				yield from exec_block(eng, fn, s.body, st2)
 		return
 	if isinstance(s, ast.FunctionDef):
 		fn.local_funcs[s.name] = s
@@ -634,7 +649,8 @@ def exec_try(eng: Engine, fn: FnCtx, s: ast.Try, st: State) -> Iterator[Outcome]
 			for h in s.handlers:
 				names = handler_names(eng, fn, sx, h)
 				full = any(eng.exc_subclass(exc.cname, nm) for nm in names) if names else True
-				partial = (not full) and getattr(exc, 'any_subclass', False) and any(eng.exc_subclass(nm, exc.cname) for nm in names)
+				# an external that "may raise anything" stands for every subclass: a narrower handler catches only part of it
+				partial = (not full) and getattr(exc, 'any_subclass', False) and any(eng.exc_subclass(nm, exc.cname) or nm not in BUILTIN_NAMES and not nm.startswith('Errors.') for nm in names)
 				if full or partial:
 					sh = sx.copy()
 					if h.name:
